@@ -414,7 +414,11 @@ class C08(Check):
             'uploads, Request.copy() with edits of the copy after header views were cached, before/after_request '
             'hooks, 404/405/bad path/empty/HEAD/204, two requests through ONE route object with int/float/re/rex[selector]/path '
             'filters and different matched values (handler kwargs, url_args), signed cookies with mutable payloads '
-            'edited in place (same raw cookie on both threads and back-to-back); every scheduled run starts COLD '
+            'edited in place (same raw cookie on both threads and back-to-back), a mutator that changes IN PLACE every '
+            'object the framework hands it (url_args, cookies, query, forms, params, POST, files, environ, extension '
+            'attribute, response headers, custom reason phrase of an unlisted code) against readers with the same '
+            'raw inputs on the same static route, two different static routes (handler identity), identity (`is`) '
+            'of handed-out objects across requests; every scheduled run starts COLD '
             '(lazily filled module-level caches emptied: template lines, filter cache; found by walking the package) '
             'and the module-level state left behind is compared with that of an unpreempted run in a fresh process; quick: every single preemption point of thread 1 (every k-th '
             'line for programs over 900 lines) x ~45 ordered pairs of kinds and application configurations, plus '
